@@ -875,8 +875,8 @@ bool vh::run_case(std::string const& op, Toks& in, Out& impl, Out& ref)
 
 static bool run_case_inner(std::string const& op, Toks& in, Out& impl, Out& ref)
 {
-    // ops "u_*" (representation types of either signedness, 8..64 bits) belong to the variant built from harness_u.cpp
-    if (op.rfind("u_", 0) == 0) {
+    // ops "u_*" / "uub_*" (representation types of either signedness, 8..64 bits) belong to the variants built from harness_u.cpp
+    if (op.rfind("u_", 0) == 0 || op.rfind("uub_", 0) == 0) {
         impl.tok("skip");
         return true;
     }
